@@ -125,7 +125,9 @@ class Optimizer:
         ]
 
         self._parameter_history = ParameterHistory()
-        self._parameter_history.append(scheme.parameters)
+        # Reading the arrays refreshes the expression parameters in place, so the private copy
+        # is used: the scheme of the caller is left as it is.
+        self._parameter_history.append(self._parameters)
 
     def optimize(self):
         """Perform the optimization.
@@ -140,7 +142,7 @@ class Optimizer:
             initial_parameter,
             lower_bounds,
             upper_bounds,
-        ) = self._scheme.parameters.get_label_value_and_bounds_arrays(exclude_non_vary=True)
+        ) = self._scheme.parameters.copy().get_label_value_and_bounds_arrays(exclude_non_vary=True)
         with self._tee:
             try:
                 verbose = 2 if self._verbose else 0
